@@ -324,4 +324,149 @@ theorem pastLoop_done (ref : DateTime) (day dow fm : Nat) :
 /-- ISO weekdays are 1..7: a search for the culture map's Sunday (0) never finishes. -/
 theorem isoWeekday_pos (x : Date) : 1 ≤ x.isoWeekday ∧ x.isoWeekday ≤ 7 := isoWeekdayOrd_range x.ord
 
+/-! ### "two mondays from now": `DateUtils.next` iterated -/
+
+theorem relLoop_spec (dow : Nat) (hd : dow ≤ 7) :
+    ∀ (k : Nat) (v r : DateTime), v.date.valid = true → relLoop dow k v = some r →
+      r.date.valid = true ∧ r.secs = v.secs ∧ (k = 0 → r = v) ∧
+      (1 ≤ k → (r.date.ord : Int) = mondayOrd v.date.ord + 7 * k + (target dow : Int) - 1) := by
+  intro k
+  induction k with
+  | zero =>
+    intro v r hv h
+    unfold relLoop at h
+    simp only [Option.some.injEq] at h
+    subst h
+    exact ⟨hv, rfl, fun _ => rfl, fun c => by omega⟩
+  | succ n ih =>
+    intro v r hv h
+    unfold relLoop at h
+    cases hn : next v dow with
+    | none => simp [hn] at h
+    | some w =>
+      simp only [hn, Option.bind_some] at h
+      have sn := next_spec v hv dow w hn
+      have s := ih w r sn.1 h
+      have tr := target_range dow hd
+      have m := mondayOrd_spec v.date.ord (ord_range v.date hv).1
+      have wk := week_of_ord w.date.ord (mondayOrd v.date.ord + 7) (target dow)
+        (by have := m.2.2.2.1; unfold weekdayOrd at this ⊢; omega) tr.1 tr.2 (by omega)
+      refine ⟨s.1, by rw [s.2.1, sn.2.1], fun c => by omega, fun _ => ?_⟩
+      by_cases h0 : n = 0
+      · subst h0
+        have := s.2.2.1 rfl
+        subst this
+        omega
+      · have := s.2.2.2 (by omega)
+        rw [wk.2] at this
+        omega
+
+/-! ### one month on / back from a day every month has -/
+
+theorem addMonth_small (x : Date) (hv : x.valid = true) (hd : x.d ≤ 28) :
+    (x.y * 12 + x.m + 1 ≤ 9999 * 12 + 12 →
+      datedeltaAdd x 0 1 0 = some (if x.m = 12 then ⟨x.y + 1, 1, x.d⟩ else ⟨x.y, x.m + 1, x.d⟩)) ∧
+    (13 < x.y * 12 + x.m →
+      datedeltaAdd x 0 (-1) 0 = some (if x.m = 1 then ⟨x.y - 1, 12, x.d⟩ else ⟨x.y, x.m - 1, x.d⟩)) := by
+  have hx := (valid_iff x).1 hv
+  constructor
+  · intro hb
+    have tv : (if x.m = 12 then (⟨x.y + 1, 1, x.d⟩ : Date) else ⟨x.y, x.m + 1, x.d⟩).valid = true := by
+      split
+      · rw [valid_iff]; simp only
+        have := daysInMonth_ge (x.y + 1) 1 (by omega) (by omega); omega
+      · rw [valid_iff]; simp only
+        have := daysInMonth_ge x.y (x.m + 1) (by omega) (by omega); omega
+    rw [datedeltaAdd_months_eq]
+    have e : monthStep x 1 = (if x.m = 12 then ((x.y : Int) + 1, 1, x.d) else ((x.y : Int), x.m + 1, x.d)) := by
+      unfold monthStep
+      simp only [ne_eq, show ¬ ((1 : Int) = 0) by omega, not_false_eq_true, if_true]
+      have dimge : x.d ≤ (if 1 ≤ ((x.y : Int) * 12 + ((x.m : Int) - 1) + 1) / 12 ∧ ((x.y : Int) * 12 + ((x.m : Int) - 1) + 1) / 12 ≤ 9999 then
+          daysInMonth (((x.y : Int) * 12 + ((x.m : Int) - 1) + 1) / 12).toNat ((((x.y : Int) * 12 + ((x.m : Int) - 1) + 1) % 12).toNat + 1)
+        else 31) := by
+        split
+        · have := daysInMonth_ge (((x.y : Int) * 12 + ((x.m : Int) - 1) + 1) / 12).toNat
+            ((((x.y : Int) * 12 + ((x.m : Int) - 1) + 1) % 12).toNat + 1) (by omega) (by omega)
+          omega
+        · omega
+      rw [if_neg (by omega)]
+      split
+      · next c => subst_vars; simp only [Prod.mk.injEq]; refine ⟨by omega, by omega, trivial⟩
+      · next c => simp only [Prod.mk.injEq]; refine ⟨by omega, by omega, trivial⟩
+    rw [e]
+    split
+    · next c =>
+      simp only
+      rw [if_pos (by omega)]
+      have : ((x.y : Int) + 1).toNat = x.y + 1 := by omega
+      rw [this]
+      rw [if_pos c] at tv
+      rw [if_pos tv]
+    · next c =>
+      simp only
+      rw [if_pos (by omega)]
+      simp only [Int.toNat_natCast]
+      rw [if_neg c] at tv
+      rw [if_pos tv]
+  · intro hb
+    have tv : (if x.m = 1 then (⟨x.y - 1, 12, x.d⟩ : Date) else ⟨x.y, x.m - 1, x.d⟩).valid = true := by
+      split
+      · rw [valid_iff]; simp only
+        have := daysInMonth_ge (x.y - 1) 12 (by omega) (by omega); omega
+      · rw [valid_iff]; simp only
+        have := daysInMonth_ge x.y (x.m - 1) (by omega) (by omega); omega
+    rw [datedeltaAdd_months_eq]
+    have e : monthStep x (-1) = (if x.m = 1 then ((x.y : Int) - 1, 12, x.d) else ((x.y : Int), x.m - 1, x.d)) := by
+      unfold monthStep
+      simp only [ne_eq, show ¬ ((-1 : Int) = 0) by omega, not_false_eq_true, if_true]
+      have dimge : x.d ≤ (if 1 ≤ ((x.y : Int) * 12 + ((x.m : Int) - 1) + -1) / 12 ∧ ((x.y : Int) * 12 + ((x.m : Int) - 1) + -1) / 12 ≤ 9999 then
+          daysInMonth (((x.y : Int) * 12 + ((x.m : Int) - 1) + -1) / 12).toNat ((((x.y : Int) * 12 + ((x.m : Int) - 1) + -1) % 12).toNat + 1)
+        else 31) := by
+        split
+        · have := daysInMonth_ge (((x.y : Int) * 12 + ((x.m : Int) - 1) + -1) / 12).toNat
+            ((((x.y : Int) * 12 + ((x.m : Int) - 1) + -1) % 12).toNat + 1) (by omega) (by omega)
+          omega
+        · omega
+      rw [if_neg (by omega)]
+      split
+      · next c => simp only [Prod.mk.injEq]; refine ⟨by omega, by omega, trivial⟩
+      · next c => simp only [Prod.mk.injEq]; refine ⟨by omega, by omega, trivial⟩
+    rw [e]
+    split
+    · next c =>
+      simp only
+      rw [if_pos (by omega)]
+      have : ((x.y : Int) - 1).toNat = x.y - 1 := by omega
+      rw [this]
+      rw [if_pos c] at tv
+      rw [if_pos tv]
+    · next c =>
+      simp only
+      rw [if_pos (by omega)]
+      simp only [Int.toNat_natCast]
+      rw [if_neg c] at tv
+      rw [if_pos tv]
+
+/-- `a < b` or `b ≤ a` on datetimes -/
+theorem not_le_lt (a b : DateTime) (h : a.le b = false) : b.lt a = true := by
+  have : ¬ (a.le b = true) := by simp [h]
+  rw [le_iff] at this
+  rw [lt_iff]; omega
+
+theorem not_lt_le (a b : DateTime) (h : a.lt b = false) : b.le a = true := by
+  have : ¬ (a.lt b = true) := by simp [h]
+  rw [lt_iff] at this
+  rw [le_iff]; omega
+
+theorem lt_of_ord (a b : DateTime) (h : a.date.ord < b.date.ord) : a.lt b = true ∧ b.lt a = false := by
+  constructor
+  · rw [lt_iff]; omega
+  · have : ¬ (b.lt a = true) := by rw [lt_iff]; omega
+    simpa using this
+
+/-- the same month one year later / earlier is later / earlier than anything in this year -/
+theorem ord_year_lt (a b : Date) (ha : a.valid = true) (hb : b.valid = true) (h : a.y < b.y) : a.ord < b.ord :=
+  ord_lt_of_lexLt a b ha hb (Or.inl h)
+
+
 end RTV.DateParser
